@@ -28,7 +28,7 @@ import (
 func init() {
 	Register(&Prop{
 		ID:   "C20",
-		Expl: "Finds every report site of the three chain-watcher back-ends (dynamic calls through func values that flow from the parameter of an implementation of swap.TxWatcher.AddConfirmationCallback / AddCsvCallback; wrappers are lifted to their call sites) and decides on the SSA CFG, with guard operands named by their origin in the registration call (role-normalised linear facts, bool helpers expanded into the conditions of their true returns): (R1) every confirmation report whose error argument may be nil is dominated by the open-window test start+window-current > 0 and by the back-end's depth test with the exact constants (+1, >=, required depth; RPC first-seen lookup on the registered (txid,start,vout); Electrum tip>0, txHeight>0, txHeight<=tip; LND safety limit and NumConfs delegation), by the nil-error edge of the raw-transaction lookup, and the required depths are wired to the onchain constants; (R2) every CSV report is dominated by confirmations >= csv with csv flowing from the registration (RPC/Electrum) or equal to onchain.BitcoinCsv (LND) and the depth lookup made on the registered txid/vout; (R3) at most once: on every feasible CFG path no report site is reachable after a report site (goroutine loops), the reported key of a watch-list scan reaches the removal call on the success edge, a successful immediate report never reaches the watch-list insertion, observers return true after reporting and the subscriber deregisters on (true, nil); a select arm on ctx.Done() is infeasible exactly when the context comes from context.WithCancel(context.Background()/TODO()) and the cancel func is neither called nor readable (stored only in a field that production code never reads); (R4) in the RPC and Electrum back-ends the failing edge of the window test reaches, on every feasible path before any return or re-evaluation, a confirmation report whose error is definitely non-nil. The quantifier is over all report sites and all CFG paths of the watcher functions, i.e. all block sequences the watcher can be driven through.",
+		Expl: "Finds every report site of the three chain-watcher back-ends (dynamic calls through func values that flow from the parameter of an implementation of swap.TxWatcher.AddConfirmationCallback / AddCsvCallback; wrappers are lifted to their call sites) and decides on the SSA CFG, with guard operands named by their origin in the registration call (role-normalised linear facts, bool helpers expanded into the conditions of their true returns): (R1) every confirmation report whose error argument may be nil is dominated by the open-window test start+window-current > 0 and by the back-end's depth test with the exact constants (+1, >=, required depth; RPC first-seen lookup on the registered (txid,start,vout); Electrum tip>0, txHeight>0, txHeight<=tip; LND safety limit and NumConfs delegation), by the nil-error edge of the raw-transaction lookup, and the required depths are wired to the onchain constants; (R2) every CSV report is dominated by confirmations >= csv with csv flowing from the registration (RPC/Electrum) or equal to onchain.BitcoinCsv (LND) and the depth lookup made on the registered txid/vout; (R3) at most once: on every feasible CFG path no report site is reachable after a report site (goroutine loops), the reported key of a watch-list scan reaches the removal call on the success edge, a successful immediate report never reaches the watch-list insertion, observers return true after reporting and the subscriber deregisters on (true, nil); a select arm on ctx.Done() is infeasible exactly when the context comes from context.WithCancel(context.Background()/TODO()) and the cancel func is neither called nor readable (stored only in a field that production code never reads); (R4) in the RPC and Electrum back-ends the failing edge of the window test reaches, on every feasible path before any return or re-evaluation, a confirmation report whose error is definitely non-nil. Guards and reports may sit in in-module helpers: facts of bool- and error-returning helpers are instantiated with the arguments of the call, a report inside a helper is judged under the facts that hold at every call of that helper, and the path rules R3/R4 also see the calls of helpers that contain a report. A VIOLATION is reported only when every dominating condition was interpreted and the required fact is positively absent (or a CFG path positively exists); conditions the rules cannot look into (non-expandable helper results, bool variables) make the obligation undecided instead. The quantifier is over all report sites and all CFG paths of the watcher functions, i.e. all block sequences the watcher can be driven through.",
 		NotD: "Reorganisations, out-of-sync or stale RPC answers, that GetTxOut / Electrum history / lnd notifications tell the truth; the internals of IsTxInMempoolOrRange and getHeight (anchored by callee identity only); that the swap id passed to the callback is the registered one; uint32 wrap-around of start+window; duplicate registrations of one swap (each registration is reported at most once, two registrations may report twice); a failed callback (non-nil result) is retried by design in the scanning back-ends; R4 is not claimed for LND (its window is the constant safety limit and lnd/txwatcher.go has no failure form of the report); de-duplication maps of the LND registrations.",
 		Run:  runC20,
 	})
@@ -41,7 +41,6 @@ const (
 	c20CsvCB    = "AddCsvCallback"
 	c20ObsCB    = "Callback"
 	c20FnLookup = "func:(*txwatcher.CommonBlockchainObserver).IsTxInMempoolOrRange"
-	c20FnHeight = "func:electrum.getHeight"
 	c20FnRawTx  = "iface:electrum.RPC.GetRawTransaction"
 	c20FnTxOut  = "iface:txwatcher.BlockchainRpc.GetTxOut"
 	c20HashPkg  = "github.com/btcsuite/btcd/chaincfg/chainhash"
@@ -80,6 +79,19 @@ type c20Site struct {
 	via     *ssa.Function
 	viaOK   bool
 	name    string
+	// proxy: the site is a call of an in-module helper that contains the report
+	// (under); must = the helper issues that report on every path.
+	proxy bool
+	under *c20Site
+	must  bool
+}
+
+// real returns the report a proxy stands for.
+func (s *c20Site) real() *c20Site {
+	for s.under != nil {
+		s = s.under
+	}
+	return s
 }
 
 func runC20(c *an.Check) {
@@ -108,11 +120,19 @@ func runC20(c *an.Check) {
 	// frozen anchors (callee / field identities used as term names below): a rename
 	// must end in "cannot decide", not in a violation
 	okA := true
-	for _, f := range [][2]string{{"txwatcher", "(*CommonBlockchainObserver).IsTxInMempoolOrRange"}, {"electrum", "getHeight"}} {
-		if w.Func(f[0], f[1]) == nil {
-			c.Anchor("function %s.%s does not resolve", f[0], f[1])
-			okA = false
+	if w.Func("txwatcher", "(*CommonBlockchainObserver).IsTxInMempoolOrRange") == nil {
+		c.Anchor("function txwatcher.(*CommonBlockchainObserver).IsTxInMempoolOrRange does not resolve")
+		okA = false
+	}
+	nHL := 0
+	for _, fn := range prodFuncs(w) {
+		if x.isHeightLookup(fn) {
+			nHL++
 		}
+	}
+	if nHL == 0 {
+		c.Anchor("no function of package electrum maps (history, *chainhash.Hash) to (BlockHeight, bool) — the transaction-height lookup (getHeight) does not resolve")
+		okA = false
 	}
 	for _, m := range []string{c20FnRawTx, c20FnTxOut} {
 		if !ifaceMethodExists(w, m) {
@@ -146,21 +166,37 @@ func runC20(c *an.Check) {
 		}
 	}
 	x.findSites()
+	// R1 / R2 judge the reports where they are issued; R3 / R4 also see the calls of
+	// helpers that contain a report (proxies)
 	var conf, csv, success []*c20Site
+	confBE, csvBE := map[string]bool{}, map[string]bool{}
 	for _, s := range x.sites {
 		if s.kind == "conf" {
 			conf = append(conf, s)
-			if s.errKind != "nonnil" {
+			if s.errKind != "nonnil" && !s.proxy {
 				success = append(success, s)
+				confBE[w.FnRel(s.fn)] = true
 			}
-		} else {
+		} else if !s.proxy {
 			csv = append(csv, s)
+			csvBE[w.FnRel(s.fn)] = true
 		}
 	}
-	if !c.AtLeast("C20", "confirmation report sites", len(conf), 6) || !c.AtLeast("C20", "CSV report sites", len(csv), 3) {
+	// vacuity: one instance per back-end (package of the watcher implementation), not per call site
+	okV := true
+	for _, be := range []string{"txwatcher", "electrum", "lnd"} {
+		if !confBE[be] {
+			c.Anchor("C20: no confirmation report that may carry a nil error found in back-end %s (rule would pass vacuously)", be)
+			okV = false
+		}
+		if !csvBE[be] {
+			c.Anchor("C20: no CSV report found in back-end %s (rule would pass vacuously)", be)
+			okV = false
+		}
+	}
+	if !okV {
 		return
 	}
-	c.AtLeast("C20.R1", "confirmation reports that may carry a nil error", len(success), 3)
 	for _, s := range success {
 		x.r1(s)
 	}
@@ -252,6 +288,37 @@ func (x *c20X) ifaceParam(p *ssa.Parameter) string {
 		return "CUR"
 	}
 	return ""
+}
+
+// isHeightLookup identifies the Electrum transaction-height lookup structurally
+// (today electrum.getHeight): an electrum function that takes a *chainhash.Hash
+// and returns (electrum.BlockHeight, bool).
+func (x *c20X) isHeightLookup(fn *ssa.Function) bool {
+	if fn == nil || fn.Blocks == nil || x.w.FnRel(fn) != "electrum" || c20HashArg(fn) < 0 {
+		return false
+	}
+	res := fn.Signature.Results()
+	if res.Len() != 2 {
+		return false
+	}
+	n := an.NamedOf(res.At(0).Type())
+	b, isB := res.At(1).Type().Underlying().(*types.Basic)
+	return n != nil && n.Obj().Name() == "BlockHeight" && n.Obj().Pkg() != nil && strings.HasSuffix(n.Obj().Pkg().Path(), "/electrum") && isB && b.Kind() == types.Bool
+}
+
+// c20HashArg: index (in Params / static Args) of the *chainhash.Hash parameter.
+func c20HashArg(fn *ssa.Function) int {
+	if fn == nil {
+		return -1
+	}
+	for i, p := range fn.Params {
+		if pt, ok := p.Type().(*types.Pointer); ok {
+			if n := an.NamedOf(pt); n != nil && n.Obj().Name() == "Hash" && n.Obj().Pkg() != nil && n.Obj().Pkg().Path() == c20HashPkg {
+				return i
+			}
+		}
+	}
+	return -1
 }
 
 func c20IsInt(t types.Type) bool {
@@ -416,8 +483,10 @@ func (x *c20X) role1(v ssa.Value, bind c20Bind, d int) string {
 				return "FIRSTSEEN[" + x.roles(args[1:], bind, d+1) + "]"
 			case name == c20FnLookup && len(args) == 4 && t.Index == 0:
 				return "RAWTX[" + x.roles(args[1:], bind, d+1) + "]"
-			case name == c20FnHeight && len(args) == 2 && t.Index == 0:
-				return "TXHEIGHT[" + x.roles(args[1:], bind, d+1) + "]"
+			case t.Index == 0 && x.isHeightLookup(tup.Common().StaticCallee()):
+				if h := c20HashArg(tup.Common().StaticCallee()); h >= 0 && h < len(args) {
+					return "TXHEIGHT[" + x.roles(args[h:h+1], bind, d+1) + "]"
+				}
 			case name == c20FnRawTx && len(args) == 2 && t.Index == 0:
 				return "RAWTX[" + x.roles(args[1:], bind, d+1) + "]"
 			case name == "func:"+c20HashPkg+".NewHashFromStr" && t.Index == 0 && len(args) == 1:
@@ -640,17 +709,22 @@ func (x *c20X) norm(f an.Fact, bind c20Bind) an.Fact {
 	return f
 }
 
-// c20Group: facts that hold at a point. alts is empty for facts that dominate the
-// point directly; for a bool helper known to have returned true it holds one fact
-// set per return that may yield true.
+// c20Group: facts that hold at a point. Group 0 holds the facts that dominate the
+// point directly (and the conditions that could not be interpreted); every other
+// group is a disjunction: one fact set per way a helper can have produced the
+// tested value, or one fact set per caller of the enclosing helper.
 type c20Group struct {
 	direct []an.Fact
 	alts   [][]an.Fact
 	helper string
+	opaque []string // dominating conditions the rule cannot look into
 }
 
-// factsAt returns the direct facts and the helper expansions at instr.
-func (x *c20X) factsAt(at ssa.Instruction) []c20Group {
+// factsAt returns the direct facts and the helper expansions at instr, plus the
+// facts that hold at every call site of the enclosing in-module helper.
+func (x *c20X) factsAt(at ssa.Instruction) []c20Group { return x.factsAtDepth(at, 0) }
+
+func (x *c20X) factsAtDepth(at ssa.Instruction, depth int) []c20Group {
 	raw := x.w.FactsDominating(at)
 	g := c20Group{}
 	var out []c20Group
@@ -658,19 +732,86 @@ func (x *c20X) factsAt(at ssa.Instruction) []c20Group {
 		g.direct = append(g.direct, x.norm(f, nil))
 		if hg, ok := x.expand(f); ok {
 			out = append(out, hg)
+		} else if why := x.opaqueFact(f); why != "" {
+			g.opaque = append(g.opaque, why)
 		}
+	}
+	// caller context: the guard may sit before the call of the helper that reports
+	fn := at.Parent()
+	if depth < 2 && fn != nil && !c20ImplOf(fn, x.txw) && !c20ImplOf(fn, x.obs) && len(x.callers[fn]) > 0 {
+		cg := c20Group{helper: "callers of " + x.w.FuncName(fn)}
+		for _, call := range x.callers[fn] {
+			sub := x.factsAtDepth(call, depth+1)
+			alt := append([]an.Fact{}, sub[0].direct...)
+			g.opaque = append(g.opaque, sub[0].opaque...)
+			for _, hg := range sub[1:] {
+				if len(hg.alts) == 1 {
+					alt = append(alt, hg.alts[0]...)
+				}
+			}
+			cg.alts = append(cg.alts, alt)
+		}
+		out = append(out, cg)
 	}
 	return append([]c20Group{g}, out...)
 }
 
-// expand: f says that a bool helper of the module returned true / false; the
-// result lists one fact set per way the helper can produce that value.
-func (x *c20X) expand(f an.Fact) (c20Group, bool) {
-	if f.Rel != "true" && f.Rel != "false" {
-		return c20Group{}, false
+// c20Want: the value a helper result is known to have.
+type c20Want int
+
+const (
+	c20True c20Want = iota
+	c20False
+	c20Nil
+	c20NonNil
+)
+
+// testedCall: f tests the bool result (atom) or the error result (== nil / != nil)
+// of a call; returns the call, the result index and the known value.
+func c20TestedCall(f an.Fact) (*ssa.Call, int, c20Want, bool) {
+	switch {
+	case f.Rel == "true" || f.Rel == "false":
+		call, idx := c20BoolCall(f.Cond)
+		if call == nil {
+			return nil, 0, 0, false
+		}
+		if f.Rel == "true" {
+			return call, idx, c20True, true
+		}
+		return call, idx, c20False, true
+	case f.NonNum && (f.Rel == "==" || f.Rel == "!="):
+		var v ssa.Value
+		switch {
+		case f.RV != nil && an.IsNilConst(f.RV):
+			v = f.LV
+		case f.LV != nil && an.IsNilConst(f.LV):
+			v = f.RV
+		}
+		if v == nil || !an.IsErrorType(v.Type()) {
+			return nil, 0, 0, false
+		}
+		call, idx := c20BoolCall(v)
+		if call == nil {
+			return nil, 0, 0, false
+		}
+		if f.Rel == "==" {
+			return call, idx, c20Nil, true
+		}
+		return call, idx, c20NonNil, true
 	}
-	call, idx := c20BoolCall(f.Cond)
-	if call == nil {
+	return nil, 0, 0, false
+}
+
+// modelled: callees whose meaning is captured by a role (FIRSTSEEN, RAWTX, …).
+func (x *c20X) modelled(callee *ssa.Function) bool {
+	return "func:"+x.w.FuncName(callee) == c20FnLookup || x.isHeightLookup(callee)
+}
+
+// expand: f says that a helper of the module returned true / false / nil / non-nil;
+// the result lists one fact set per way the helper can produce that value.
+func (x *c20X) expand(f an.Fact) (c20Group, bool) {
+	call, idx, want, ok := c20TestedCall(f)
+	if !ok {
 		return c20Group{}, false
 	}
 	callee := call.Common().StaticCallee()
@@ -683,7 +824,7 @@ func (x *c20X) expand(f an.Fact) (c20Group, bool) {
 			bind[p] = call.Call.Args[i]
 		}
 	}
-	hg := c20Group{helper: fmt.Sprintf("%s=%s", x.w.FuncName(callee), f.Rel)}
+	hg := c20Group{helper: fmt.Sprintf("%s %s", x.w.FuncName(callee), []string{"= true", "= false", "= nil", "!= nil"}[want])}
 	for _, r := range an.Returns(callee) {
 		if idx >= len(r.Results) || !c20BlockReachable(r.Block()) {
 			continue
@@ -692,13 +833,51 @@ func (x *c20X) expand(f an.Fact) (c20Group, bool) {
 		for _, df := range x.w.FactsDominating(r) {
 			base = append(base, x.norm(df, bind))
 		}
-		alts, ok := x.truthAlts(r.Results[idx], f.Rel == "true", bind, base, 0)
+		alts, ok := x.valueAlts(r.Results[idx], want, bind, base, x.w.FactsDominating(r), 0)
 		if !ok {
 			return c20Group{}, false
 		}
 		hg.alts = append(hg.alts, alts...)
 	}
 	return hg, len(hg.alts) > 0
+}
+
+// opaqueFact: f is a condition that may hide a guard and that the rule cannot look
+// into: the result of an in-module helper that does not expand, or a bool variable.
+func (x *c20X) opaqueFact(f an.Fact) string {
+	if call, _, _, ok := c20TestedCall(f); ok {
+		callee := call.Common().StaticCallee()
+		if callee != nil && x.w.InModule(callee) && callee.Blocks != nil && !x.modelled(callee) {
+			return "result of " + x.w.FuncName(callee) + " (not expandable)"
+		}
+		return ""
+	}
+	if f.Rel != "true" && f.Rel != "false" {
+		return ""
+	}
+	switch t := f.Cond.(type) {
+	case *ssa.Phi, *ssa.Parameter, *ssa.FreeVar:
+		return "bool value " + x.w.Term(f.Cond)
+	case *ssa.UnOp:
+		if t.Op == token.MUL {
+			switch t.X.(type) {
+			case *ssa.Alloc, *ssa.FreeVar:
+				return "bool variable " + x.w.Term(f.Cond)
+			}
+		}
+	}
+	return ""
+}
+
+func c20Opaque(groups []c20Group) string {
+	if len(groups) == 0 || len(groups[0].opaque) == 0 {
+		return ""
+	}
+	m := map[string]bool{}
+	for _, o := range groups[0].opaque {
+		m[o] = true
+	}
+	return strings.Join(sortedKeys(m), ", ")
 }
 
 // implies: whenever the edge fact f holds, a fact satisfying pred holds.
@@ -718,31 +897,49 @@ func (x *c20X) implies(f an.Fact, pred func(an.Fact) bool) bool {
 	return true
 }
 
-// truthAlts lists, for a bool value of a helper, the fact sets under which it
-// evaluates to `want` (one set per way: constants, comparisons, negations and the
-// phis that && / || compile to).
-func (x *c20X) truthAlts(v ssa.Value, want bool, bind c20Bind, base []an.Fact, d int) ([][]an.Fact, bool) {
+// valueAlts lists, for a bool / error value of a helper, the fact sets under which
+// it has the wanted value (one set per way: constants, comparisons, negations,
+// error constructors, values whose nil-ness is tested on the way, and the phis
+// that && / || / single-return styles compile to).
+func (x *c20X) valueAlts(v ssa.Value, want c20Want, bind c20Bind, base []an.Fact, rawBase []an.Fact, d int) ([][]an.Fact, bool) {
 	if d > 4 {
 		return nil, false
 	}
-	switch t := v.(type) {
-	case *ssa.Const:
-		if t.Value == nil || t.Value.Kind() != constant.Bool {
-			return nil, false
-		}
-		if constant.BoolVal(t.Value) == want {
+	one := func(match bool) ([][]an.Fact, bool) {
+		if match {
 			return [][]an.Fact{base}, true
 		}
 		return nil, true
+	}
+	isBool := want == c20True || want == c20False
+	switch t := v.(type) {
+	case *ssa.Const:
+		if isBool {
+			if t.Value == nil || t.Value.Kind() != constant.Bool {
+				return nil, false
+			}
+			return one(constant.BoolVal(t.Value) == (want == c20True))
+		}
+		if t.Value == nil {
+			return one(want == c20Nil)
+		}
+		return nil, false
 	case *ssa.BinOp:
-		cf, ok := x.cmp(t, want, bind)
+		if !isBool {
+			return nil, false
+		}
+		cf, ok := x.cmp(t, want == c20True, bind)
 		if !ok {
 			return nil, false
 		}
 		return [][]an.Fact{append(append([]an.Fact{}, base...), cf)}, true
 	case *ssa.UnOp:
-		if t.Op == token.NOT {
-			return x.truthAlts(t.X, !want, bind, base, d+1)
+		if t.Op == token.NOT && isBool {
+			nw := c20True
+			if want == c20True {
+				nw = c20False
+			}
+			return x.valueAlts(t.X, nw, bind, base, rawBase, d+1)
 		}
 	case *ssa.Phi:
 		var out [][]an.Fact
@@ -753,21 +950,52 @@ func (x *c20X) truthAlts(v ssa.Value, want bool, bind c20Bind, base []an.Fact, d
 			}
 			p := blk.Preds[i]
 			fs := append([]an.Fact{}, base...)
+			raw := append([]an.Fact{}, rawBase...)
 			for _, df := range x.w.FactsDominatingBlock(p) {
 				fs = append(fs, x.norm(df, bind))
+				raw = append(raw, df)
 			}
 			for _, ef := range x.w.Facts(blk.Parent()) {
 				if ef.Edge.From == p && ef.Edge.To() == blk && !(len(p.Succs) == 2 && p.Succs[0] == p.Succs[1]) {
 					fs = append(fs, x.norm(ef, bind))
+					raw = append(raw, ef)
 				}
 			}
-			sub, ok := x.truthAlts(e, want, bind, fs, d+1)
+			sub, ok := x.valueAlts(e, want, bind, fs, raw, d+1)
 			if !ok {
 				return nil, false
 			}
 			out = append(out, sub...)
 		}
 		return out, true
+	}
+	if isBool {
+		return nil, false
+	}
+	// error values
+	sv := c20Strip(v)
+	switch t := sv.(type) {
+	case *ssa.Call:
+		switch x.w.Info(t).Name {
+		case "func:fmt.Errorf", "func:errors.New":
+			return one(want == c20NonNil)
+		}
+	case *ssa.UnOp:
+		if g, ok := t.X.(*ssa.Global); ok && t.Op == token.MUL && c20GlobalIsErrorsNew(g) {
+			return one(want == c20NonNil)
+		}
+	case *ssa.Alloc:
+		if _, isMI := v.(*ssa.MakeInterface); isMI {
+			return one(want == c20NonNil) // &T{} wrapped into the error interface
+		}
+	}
+	for _, f := range rawBase {
+		if !f.NonNum || (f.Rel != "==" && f.Rel != "!=") {
+			continue
+		}
+		if (c20Strip(f.LV) == sv && an.IsNilConst(f.RV)) || (c20Strip(f.RV) == sv && an.IsNilConst(f.LV)) {
+			return one((f.Rel == "==") == (want == c20Nil))
+		}
 	}
 	return nil, false
 }
@@ -892,6 +1120,33 @@ func (x *c20X) findSites() {
 			x.sites = append(x.sites, lifted...)
 		}
 	}
+	// proxies: a report that stays inside a plain helper (its arguments are computed
+	// there) is also seen, by the path rules R3 / R4, at the helper's call sites
+	work := append([]*c20Site{}, x.sites...)
+	for depth := 0; depth < 3 && len(work) > 0; depth++ {
+		var next []*c20Site
+		for _, s := range work {
+			h := s.fn
+			if h.Parent() != nil || c20ImplOf(h, x.txw) || c20ImplOf(h, x.obs) {
+				continue
+			}
+			if nx, _ := c20RangeOf(s.swapID); nx != nil {
+				continue // a scan picks its registrations itself; at-most-once is its removal (R3 B), not its callers' paths
+			}
+			must := x.mustPass(h, s.instr.Block()) && (!s.proxy || s.must)
+			for _, call := range x.callers[h] {
+				if _, isCall := call.(*ssa.Call); !isCall {
+					continue // go / defer: the helper runs on its own
+				}
+				args := call.Common().Args
+				p := &c20Site{kind: s.kind, fn: call.Parent(), instr: call, proxy: true, under: s, must: must,
+					swapID: c20MapArg(s.swapID, args), txHex: c20MapArg(s.txHex, args), err: c20MapArg(s.err, args), errKind: s.errKind}
+				next = append(next, p)
+			}
+		}
+		x.sites = append(x.sites, next...)
+		work = next
+	}
 	sort.SliceStable(x.sites, func(i, j int) bool {
 		a, b := x.sites[i], x.sites[j]
 		if na, nb := w.FuncName(a.fn), w.FuncName(b.fn); na != nb {
@@ -904,12 +1159,24 @@ func (x *c20X) findSites() {
 	})
 	ord := map[string]int{}
 	for _, s := range x.sites {
-		if s.kind == "conf" {
+		if s.kind == "conf" && !s.proxy {
 			s.errKind = x.errKind(s)
+		}
+	}
+	for _, s := range x.sites {
+		if s.kind == "conf" && s.proxy {
+			// judged where the error is built; if it is a parameter of the helper, at the call
+			s.errKind = s.real().errKind
+			if s.err != s.real().err {
+				s.errKind = x.errKind(s)
+			}
 		}
 		k := w.FuncName(s.fn) + " " + s.kind
 		ord[k]++
 		s.name = fmt.Sprintf("%s %s-report#%d", w.FuncName(s.fn), s.kind, ord[k])
+		if s.proxy {
+			s.name = fmt.Sprintf("%s %s-report#%d via %s", w.FuncName(s.fn), s.kind, ord[k], w.FuncName(s.under.fn))
+		}
 		switch s.errKind {
 		case "nil":
 			s.name += "(err=nil)"
@@ -942,37 +1209,45 @@ func (x *c20X) lift(s *c20Site) []*c20Site {
 	if !anyParam {
 		return nil
 	}
-	// the helper must issue the call on every path (a nil test of the callback itself is tolerated)
-	cut := map[an.Edge]bool{}
-	for _, f := range x.w.Facts(fn) {
-		if f.NonNum && f.Rel == "==" && ((an.IsNilConst(f.RV) && strings.HasPrefix(x.role(f.LV, nil, 0), "CB_")) || (an.IsNilConst(f.LV) && strings.HasPrefix(x.role(f.RV, nil, 0), "CB_"))) {
-			cut[f.Edge] = true
-		}
-	}
-	reach := an.ReachBlocks([]*ssa.BasicBlock{fn.Blocks[0]}, cut, map[*ssa.BasicBlock]bool{s.instr.Block(): true})
-	viaOK := true
-	for _, r := range an.Returns(fn) {
-		if reach[r.Block()] && r.Block() != s.instr.Block() {
-			viaOK = false
-		}
-	}
-	mapArg := func(v ssa.Value, args []ssa.Value) ssa.Value {
-		if v == nil {
-			return nil
-		}
-		if p, ok := c20Strip(v).(*ssa.Parameter); ok {
-			if i := c20ParamIndex(p); i >= 0 && i < len(args) {
-				return args[i]
-			}
-		}
-		return v
-	}
+	viaOK := x.mustPass(fn, s.instr.Block())
+	mapArg := c20MapArg
 	var out []*c20Site
 	for _, call := range x.callers[fn] {
 		args := call.Common().Args
 		out = append(out, &c20Site{kind: s.kind, fn: call.Parent(), instr: call, swapID: mapArg(s.swapID, args), txHex: mapArg(s.txHex, args), err: mapArg(s.err, args), via: fn, viaOK: viaOK})
 	}
 	return out
+}
+
+// mustPass: every path through the helper executes block b (a nil test of the
+// callback itself is tolerated).
+func (x *c20X) mustPass(fn *ssa.Function, b *ssa.BasicBlock) bool {
+	cut := map[an.Edge]bool{}
+	for _, f := range x.w.Facts(fn) {
+		if f.NonNum && f.Rel == "==" && ((an.IsNilConst(f.RV) && strings.HasPrefix(x.role(f.LV, nil, 0), "CB_")) || (an.IsNilConst(f.LV) && strings.HasPrefix(x.role(f.RV, nil, 0), "CB_"))) {
+			cut[f.Edge] = true
+		}
+	}
+	reach := an.ReachBlocks([]*ssa.BasicBlock{fn.Blocks[0]}, cut, map[*ssa.BasicBlock]bool{b: true})
+	for _, r := range an.Returns(fn) {
+		if reach[r.Block()] && r.Block() != b {
+			return false
+		}
+	}
+	return true
+}
+
+// c20MapArg: a helper parameter seen from a call of the helper.
+func c20MapArg(v ssa.Value, args []ssa.Value) ssa.Value {
+	if v == nil {
+		return nil
+	}
+	if p, ok := c20Strip(v).(*ssa.Parameter); ok {
+		if i := c20ParamIndex(p); i >= 0 && i < len(args) {
+			return args[i]
+		}
+	}
+	return v
 }
 
 // errKind classifies the error argument of a confirmation report.
@@ -1035,6 +1310,19 @@ func c20GlobalIsErrorsNew(g *ssa.Global) bool {
 	return n == 1 && okInit
 }
 
+// judge: OK when the required fact holds; VIOLATION only when every dominating
+// condition was interpreted and the fact is positively absent; otherwise undecided.
+func (x *c20X) judge(rule, cons, pos string, ok bool, g []c20Group, okDetail, badDetail string) {
+	switch op := c20Opaque(g); {
+	case ok:
+		x.c.OK(rule, cons, pos, okDetail)
+	case op != "":
+		x.c.Unknown(rule, cons, pos, badDetail+" — but the report also depends on conditions this rule cannot look into ("+op+"), which may contain the guard")
+	default:
+		x.c.Bad(rule, cons, pos, badDetail)
+	}
+}
+
 // ---- R1 -----------------------------------------------------------------------------------
 
 func (x *c20X) r1(s *c20Site) {
@@ -1042,23 +1330,32 @@ func (x *c20X) r1(s *c20Site) {
 	pos := w.Pos(s.instr.Pos())
 	g := x.factsAt(s.instr)
 	need := func(sub string, ok bool, what string) {
-		c.Decide(ok, "C20.R1", s.name+" :: "+sub, pos, what+" dominates the report",
+		x.judge("C20.R1", s.name+" :: "+sub, pos, ok, g, what+" dominates the report",
 			"a confirmation report with a possibly-nil error is not dominated by "+what+". Facts that do hold: "+c20Describe(g))
 	}
 	txRole := x.role(s.txHex, nil, 0)
 	lookupOK := func(wantRole string) {
-		ok := txRole == wantRole
-		var call *ssa.Call
-		if ex, isEx := c20Strip(s.txHex).(*ssa.Extract); isEx {
-			call, _ = ex.Tuple.(*ssa.Call)
+		cons := s.name + " :: raw transaction"
+		bad := fmt.Sprintf("the raw transaction handed to the swap is %s (want %s fetched by a call whose nil-error edge dominates the report). Facts: %s", txRole, wantRole, c20Describe(g))
+		calls := x.producers(s.txHex, 0)
+		_, isConst := c20Strip(s.txHex).(*ssa.Const)
+		switch {
+		case txRole == wantRole && len(calls) > 0:
+			errNil := func(f an.Fact) bool {
+				for _, call := range calls {
+					if c20ErrNilOf(call)(f) {
+						return true
+					}
+				}
+				return false
+			}
+			x.judge("C20.R1", cons, pos, c20Holds(g, errNil), g, "the reported raw transaction is "+wantRole+" and the lookup's error is nil on every path", bad)
+		case isConst || (strings.HasPrefix(txRole, "RAWTX[") && txRole != wantRole):
+			// a constant, or the right lookup made with the wrong arguments
+			c.Bad("C20.R1", cons, pos, bad)
+		default:
+			c.Unknown("C20.R1", cons, pos, "cannot trace the reported raw transaction to the lookup call: "+bad)
 		}
-		if ok && call != nil {
-			ok = c20Holds(g, c20ErrNilOf(call))
-		} else if ok && call == nil {
-			ok = false
-		}
-		c.Decide(ok, "C20.R1", s.name+" :: raw transaction", pos, "the reported raw transaction is "+wantRole+" and the lookup's error is nil on every path",
-			fmt.Sprintf("the raw transaction handed to the swap is %s (want %s fetched by a call whose nil-error edge dominates the report). Facts: %s", txRole, wantRole, c20Describe(g)))
 	}
 	window := c20Lin(">", 0, "REG_START", 1, "REG_WINDOW", 1, "CUR", -1)
 	switch w.FnRel(s.fn) {
@@ -1078,26 +1375,72 @@ func (x *c20X) r1(s *c20Site) {
 	case "lnd":
 		need("safety limit", c20Holds(g, c20Lin(">", x.k["BitcoinCsvSafetyLimit"]-1, "confirmationEvent.blockHeight", 1, "lnd.TxWatcher).GetBlockHeight#0", -1)),
 			fmt.Sprintf("the safety test current-confHeight+1 < onchain.BitcoinCsvSafetyLimit (%d)", x.k["BitcoinCsvSafetyLimit"]))
-		ok := false
-		for _, f := range g[0].direct {
-			if an.EqIs(f, "==", "lnd.TxWatcher).GetBlockHeight#1", "nil") {
-				ok = true
-			}
+		need("height lookup", c20Holds(g, func(f an.Fact) bool { return an.EqIs(f, "==", "lnd.TxWatcher).GetBlockHeight#1", "nil") }), "the nil-error edge of GetBlockHeight")
+		_, txConst := c20Strip(s.txHex).(*ssa.Const)
+		switch {
+		case strings.Contains(txRole, "confirmationEvent.rawTx"):
+			c.OK("C20.R1", s.name+" :: raw transaction", pos, "the reported raw transaction is the one of lnd's confirmation event")
+		case txConst:
+			c.Bad("C20.R1", s.name+" :: raw transaction", pos, "the raw transaction handed to the swap is the constant "+txRole+", not the confirmation event's")
+		default:
+			c.Unknown("C20.R1", s.name+" :: raw transaction", pos, "cannot trace the reported raw transaction ("+txRole+") to lnd's confirmation event")
 		}
-		need("height lookup", ok, "the nil-error edge of GetBlockHeight")
-		c.Decide(strings.Contains(txRole, "confirmationEvent.rawTx"), "C20.R1", s.name+" :: raw transaction", pos,
-			"the reported raw transaction is the one of lnd's confirmation event", "the raw transaction handed to the swap is "+txRole+", not the confirmation event's")
 		x.r1LndDelegation(s)
 	default:
 		c.Unknown("C20.R1", s.name, pos, "confirmation report in a package whose back-end is not modelled (txwatcher, electrum, lnd)")
 	}
 }
 
+// producers: the calls whose result v is — directly, or as the argument every
+// caller passes for the helper parameter v. Empty when some origin is not a call result.
+func (x *c20X) producers(v ssa.Value, d int) []*ssa.Call {
+	v = c20Settle(v)
+	switch t := v.(type) {
+	case *ssa.Extract:
+		if call, ok := t.Tuple.(*ssa.Call); ok {
+			return []*ssa.Call{call}
+		}
+	case *ssa.Parameter:
+		if d > 2 || x.ifaceParam(t) != "" || len(x.callers[t.Parent()]) == 0 {
+			return nil
+		}
+		var out []*ssa.Call
+		for _, site := range x.callers[t.Parent()] {
+			args := site.Common().Args
+			i := c20ParamIndex(t)
+			if i < 0 || i >= len(args) {
+				return nil
+			}
+			sub := x.producers(args[i], d+1)
+			if len(sub) == 0 {
+				return nil
+			}
+			out = append(out, sub...)
+		}
+		return out
+	}
+	return nil
+}
+
 // r1LndDelegation: the confirmation count is delegated to lnd: the ConfRequest
 // built for this registration carries the registered txid and NumConfs = targetConfs.
 func (x *c20X) r1LndDelegation(s *c20Site) {
 	c, w := x.c, x.w
-	top := an.EnclosingTop(s.fn)
+	// the registration is made by the function that starts the watcher: the function
+	// containing the report, or one that (transitively) calls the helper containing it
+	tops := map[*ssa.Function]bool{}
+	var up func(fn *ssa.Function, d int)
+	up = func(fn *ssa.Function, d int) {
+		top := an.EnclosingTop(fn)
+		if tops[top] || d > 3 {
+			return
+		}
+		tops[top] = true
+		for _, call := range x.callers[top] {
+			up(call.Parent(), d+1)
+		}
+	}
+	up(s.fn, 0)
 	cons := s.name + " :: NumConfs delegation"
 	n := 0
 	for _, fn := range prodFuncs(w) {
@@ -1119,27 +1462,44 @@ func (x *c20X) r1LndDelegation(s *c20Site) {
 				nc, ok1 := an.CompositeFieldValue(al, "NumConfs")
 				tx, ok2 := an.CompositeFieldValue(al, "Txid")
 				if !ok1 || !ok2 {
-					c.Bad("C20.R1", cons, pos, "the confirmation request leaves NumConfs or Txid unset")
+					c.Unknown("C20.R1", cons, pos, "the confirmation request literal does not set NumConfs or Txid itself")
 					continue
 				}
-				c.Decide(x.role(tx, nil, 0) == "REG_TXID", "C20.R1", s.name+" :: registered txid", pos, "lnd is asked about the registered txid", "ConfRequest.Txid is "+x.role(tx, nil, 0)+", not the registered txid")
+				switch tr := x.role(tx, nil, 0); {
+				case tr == "REG_TXID":
+					c.OK("C20.R1", s.name+" :: registered txid", pos, "lnd is asked about the registered txid")
+				case strings.HasPrefix(tr, "REG_") || strings.HasPrefix(tr, "K:"):
+					c.Bad("C20.R1", s.name+" :: registered txid", pos, "ConfRequest.Txid is "+tr+", not the registered txid")
+				default:
+					c.Unknown("C20.R1", s.name+" :: registered txid", pos, "cannot trace ConfRequest.Txid ("+tr+") to the registered txid")
+				}
+				numConfs := func(v ssa.Value, pos string) {
+					_, isK := c20Strip(v).(*ssa.Const)
+					term := w.Term(v)
+					switch {
+					case strings.Contains(term, "TxWatcher.targetConfs"):
+						c.OK("C20.R1", cons, pos, "the confirmation registration asks lnd for targetConfs confirmations")
+					case isK || strings.HasPrefix(term, "field:TxWatcher."):
+						c.Bad("C20.R1", cons, pos, "the confirmation registration asks lnd for "+term+" confirmations, not TxWatcher.targetConfs")
+					default:
+						c.Unknown("C20.R1", cons, pos, "cannot trace ConfRequest.NumConfs ("+term+") to TxWatcher.targetConfs")
+					}
+				}
 				p, isParam := c20Strip(nc).(*ssa.Parameter)
 				if !isParam {
-					c.Decide(strings.Contains(w.Term(nc), "TxWatcher.targetConfs"), "C20.R1", cons, pos, "NumConfs is targetConfs", "ConfRequest.NumConfs is "+w.Term(nc)+", not TxWatcher.targetConfs")
+					numConfs(nc, pos)
 					continue
 				}
 				found := false
 				for _, call := range x.callers[p.Parent()] {
-					if an.EnclosingTop(call.Parent()) != top {
+					if !tops[an.EnclosingTop(call.Parent())] {
 						continue
 					}
 					found = true
-					arg := call.Common().Args[c20ParamIndex(p)]
-					c.Decide(strings.Contains(w.Term(arg), "TxWatcher.targetConfs"), "C20.R1", cons, w.Pos(call.Pos()),
-						"the confirmation registration asks lnd for targetConfs confirmations", "the confirmation registration asks lnd for "+w.Term(arg)+" confirmations, not TxWatcher.targetConfs")
+					numConfs(call.Common().Args[c20ParamIndex(p)], w.Pos(call.Pos()))
 				}
 				if !found {
-					c.Unknown("C20.R1", cons, pos, "no call of "+w.FuncName(p.Parent())+" in "+w.FuncName(top))
+					c.Unknown("C20.R1", cons, pos, "no call of "+w.FuncName(p.Parent())+" in the functions that lead to the report")
 				}
 			}
 		}
@@ -1158,6 +1518,7 @@ func (x *c20X) r1Wiring() {
 		def   []string
 	}
 	n := 0
+	perField := map[string]int{}
 	for _, f := range []wf{
 		{"BlockchainRpcTxWatcher.requiredConfs", map[string]string{"ElementsBlockChainRpc": "LiquidConfs", "BitcoinBlockchainRpc": "BitcoinMinConfs"}, []string{"LiquidConfs", "BitcoinMinConfs"}},
 		{"TxWatcher.targetConfs", nil, []string{"BitcoinMinConfs"}},
@@ -1175,6 +1536,7 @@ func (x *c20X) r1Wiring() {
 			}
 			for _, call := range x.callers[p.Parent()] {
 				n++
+				perField[f.key]++
 				args := call.Common().Args
 				arg := args[c20ParamIndex(p)]
 				cons := fmt.Sprintf("required depth %s <- %s", f.key, w.FuncName(call.Parent()))
@@ -1203,7 +1565,10 @@ func (x *c20X) r1Wiring() {
 			}
 		}
 	}
-	c.AtLeast("C20.R1", "constructor call sites that set the required depth", n, 4)
+	_ = n
+	for _, k := range []string{"BlockchainRpcTxWatcher.requiredConfs", "TxWatcher.targetConfs"} {
+		c.AtLeast("C20.R1", "constructor call sites that set "+k, perField[k], 1)
+	}
 }
 
 // ---- R2 -----------------------------------------------------------------------------------
@@ -1213,7 +1578,7 @@ func (x *c20X) r2(s *c20Site) {
 	pos := w.Pos(s.instr.Pos())
 	g := x.factsAt(s.instr)
 	need := func(sub string, ok bool, what string) {
-		c.Decide(ok, "C20.R2", s.name+" :: "+sub, pos, what+" dominates the report",
+		x.judge("C20.R2", s.name+" :: "+sub, pos, ok, g, what+" dominates the report",
 			"a CSV-maturity report is not dominated by "+what+". Facts that do hold: "+c20Describe(g))
 	}
 	switch w.FnRel(s.fn) {
@@ -1459,59 +1824,208 @@ func (x *c20X) deletesFrom(fn *ssa.Function, key string) bool {
 	return false
 }
 
-// carrier walks backwards from `from` through phi / append / slices / array
-// cells and returns the instruction that consumes `target` on the way.
-func c20Carrier(from, target ssa.Value) ssa.Instruction {
-	seen := map[ssa.Value]bool{}
-	var rec func(v ssa.Value, user ssa.Instruction) ssa.Instruction
-	rec = func(v ssa.Value, user ssa.Instruction) ssa.Instruction {
-		if v == nil || seen[v] {
-			return nil
+// c20Settle looks through conversions and single-assignment local cells.
+func c20Settle(v ssa.Value) ssa.Value {
+	for i := 0; i < 6; i++ {
+		v = c20Strip(v)
+		ld, ok := v.(*ssa.UnOp)
+		if !ok || ld.Op != token.MUL {
+			return v
 		}
-		seen[v] = true
-		if v == target {
-			return user
+		switch ld.X.(type) {
+		case *ssa.Alloc, *ssa.FreeVar:
+			if s := c20CellValue(ld.X); s != nil {
+				v = s
+				continue
+			}
 		}
-		switch t := v.(type) {
-		case *ssa.Phi:
-			for _, e := range t.Edges {
-				if r := rec(e, t); r != nil {
-					return r
+		return v
+	}
+	return v
+}
+
+// c20SliceSource: the struct field a slice value is (a copy / re-slice / snapshot of).
+func c20SliceSource(v ssa.Value, d int) string {
+	if v == nil || d > 6 {
+		return ""
+	}
+	v = c20Settle(v)
+	if k := c20LoadedField(v); k != "" {
+		return k
+	}
+	switch t := v.(type) {
+	case *ssa.Slice:
+		return c20SliceSource(t.X, d+1)
+	case *ssa.Phi:
+		key := ""
+		for _, e := range t.Edges {
+			k := c20SliceSource(e, d+1)
+			if k == "" || (key != "" && k != key) {
+				return ""
+			}
+			key = k
+		}
+		return key
+	case *ssa.Call:
+		if b, ok := t.Call.Value.(*ssa.Builtin); ok && b.Name() == "append" {
+			// append([]T(nil), field...) / append(make(..), field...)
+			key := ""
+			for _, a := range t.Call.Args {
+				if k := c20SliceSource(a, d+1); k != "" {
+					key = k
 				}
 			}
-		case *ssa.Call:
-			if b, ok := t.Call.Value.(*ssa.Builtin); ok && b.Name() == "append" {
-				for _, a := range t.Call.Args {
-					if r := rec(a, t); r != nil {
-						return r
-					}
-				}
-			}
-		case *ssa.Slice:
-			return rec(t.X, t)
-		case *ssa.ChangeType:
-			return rec(t.X, t)
-		case *ssa.Alloc:
-			if t.Referrers() == nil {
-				return nil
-			}
+			return key
+		}
+		if g := t.Common().StaticCallee(); g != nil && g.Pkg != nil && g.Pkg.Pkg.Path() == "slices" && g.Name() == "Clone" && len(t.Call.Args) == 1 {
+			return c20SliceSource(t.Call.Args[0], d+1)
+		}
+	case *ssa.MakeSlice:
+		// dst := make(..); copy(dst, field)
+		if t.Referrers() != nil {
 			for _, r := range *t.Referrers() {
-				ia, ok := r.(*ssa.IndexAddr)
-				if !ok || ia.Referrers() == nil {
-					continue
-				}
-				for _, rr := range *ia.Referrers() {
-					if st, ok := rr.(*ssa.Store); ok && st.Addr == ssa.Value(ia) {
-						if x := rec(st.Val, st); x != nil {
-							return x
+				if cp, ok := r.(*ssa.Call); ok {
+					if b, ok := cp.Call.Value.(*ssa.Builtin); ok && b.Name() == "copy" && len(cp.Call.Args) == 2 && c20Settle(cp.Call.Args[0]) == ssa.Value(t) {
+						if k := c20SliceSource(cp.Call.Args[1], d+1); k != "" {
+							return k
 						}
 					}
 				}
 			}
 		}
-		return nil
 	}
-	return rec(from, nil)
+	return ""
+}
+
+// writesField: fn, or an in-module function it calls statically (to the given depth), stores into the field.
+func (x *c20X) writesField(fn *ssa.Function, key string, depth int) bool {
+	for _, st := range x.prodWriters(key) {
+		if st.Parent() == fn {
+			return true
+		}
+	}
+	if depth == 0 {
+		return false
+	}
+	for _, call := range an.Calls(fn) {
+		if g := call.Common().StaticCallee(); g != nil && g != fn && x.w.InModule(g) && x.writesField(g, key, depth-1) {
+			return true
+		}
+	}
+	return false
+}
+
+// deletesFromDeep: deletesFrom through static in-module callees.
+func (x *c20X) deletesFromDeep(fn *ssa.Function, key string, depth int) bool {
+	if x.deletesFrom(fn, key) {
+		return true
+	}
+	if depth == 0 {
+		return false
+	}
+	for _, call := range an.Calls(fn) {
+		if g := call.Common().StaticCallee(); g != nil && g != fn && x.w.InModule(g) && x.deletesFromDeep(g, key, depth-1) {
+			return true
+		}
+	}
+	return false
+}
+
+// c20Sink: where a value ends up when followed forwards through array cells,
+// slices, append, phis and local variables.
+type c20Sink struct {
+	kind  string // delete | call | opaque
+	instr ssa.Instruction
+	first ssa.Instruction // first instruction that consumed the value on this way
+	what  string
+}
+
+func (x *c20X) keyFlow(key ssa.Value, site ssa.Instruction) []c20Sink {
+	var sinks []c20Sink
+	seen := map[ssa.Value]bool{}
+	var fwd func(v ssa.Value, first ssa.Instruction, direct bool)
+	fwd = func(v ssa.Value, first ssa.Instruction, direct bool) {
+		if v == nil || seen[v] || v.Referrers() == nil {
+			return
+		}
+		seen[v] = true
+		for _, r := range *v.Referrers() {
+			f := first
+			if f == nil {
+				f = r
+			}
+			switch t := r.(type) {
+			case *ssa.DebugRef:
+			case *ssa.Store:
+				if t.Val != v {
+					continue
+				}
+				switch a := t.Addr.(type) {
+				case *ssa.IndexAddr:
+					if al, ok := a.X.(*ssa.Alloc); ok && al.Referrers() != nil {
+						for _, ar := range *al.Referrers() {
+							if sl, ok := ar.(*ssa.Slice); ok {
+								fwd(sl, f, false)
+							}
+						}
+					} else {
+						sinks = append(sinks, c20Sink{"opaque", t, f, "stored into an element of " + x.w.Term(a.X)})
+					}
+				case *ssa.Alloc:
+					if a.Referrers() != nil {
+						for _, ar := range *a.Referrers() {
+							if ld, ok := ar.(*ssa.UnOp); ok && ld.Op == token.MUL {
+								fwd(ld, f, direct)
+							} else if _, ok := ar.(*ssa.MakeClosure); ok {
+								sinks = append(sinks, c20Sink{"opaque", t, f, "captured by a closure"})
+							}
+						}
+					}
+				default:
+					sinks = append(sinks, c20Sink{"opaque", t, f, "stored into " + x.w.Term(t.Addr)})
+				}
+			case *ssa.Slice, *ssa.ChangeType, *ssa.Convert, *ssa.Phi:
+				fwd(r.(ssa.Value), f, false)
+			case *ssa.MakeInterface:
+				// boxed into an interface: formatting / logging, cannot key a map deletion
+			case *ssa.MapUpdate:
+				sinks = append(sinks, c20Sink{"opaque", t, f, "put into the map " + x.w.Term(t.Map)})
+			case *ssa.Send:
+				sinks = append(sinks, c20Sink{"opaque", t, f, "sent on a channel"})
+			case *ssa.Return:
+				sinks = append(sinks, c20Sink{"opaque", t, f, "returned to the caller"})
+			case *ssa.MakeClosure:
+				sinks = append(sinks, c20Sink{"opaque", t, f, "captured by a closure"})
+			case ssa.CallInstruction:
+				if r == site {
+					continue
+				}
+				cc := t.Common()
+				if b, ok := cc.Value.(*ssa.Builtin); ok {
+					switch b.Name() {
+					case "append":
+						if cv, ok := r.(ssa.Value); ok {
+							fwd(cv, f, false)
+						}
+					case "delete":
+						if len(cc.Args) == 2 && cc.Args[1] == v && direct {
+							sinks = append(sinks, c20Sink{"delete", t, f, c20LoadedField(cc.Args[0])})
+						}
+					}
+					continue
+				}
+				g := cc.StaticCallee()
+				switch {
+				case g != nil && x.w.InModule(g):
+					sinks = append(sinks, c20Sink{"call", t, f, ""})
+				case g == nil && !cc.IsInvoke():
+					sinks = append(sinks, c20Sink{"opaque", t, f, "passed to a func value"})
+				}
+			}
+		}
+	}
+	fwd(key, nil, true)
+	return sinks
 }
 
 func (x *c20X) r3() {
@@ -1520,14 +2034,14 @@ func (x *c20X) r3() {
 	for _, s := range x.sites {
 		byFn[s.fn] = append(byFn[s.fn], s)
 	}
-	c.AtLeast("C20.R3", "report sites", len(x.sites), 10)
 	watchLists := map[string]bool{}
 	for _, s := range x.sites {
 		if _, key := c20RangeOf(s.swapID); key != "" {
 			watchLists[key] = true
 		}
 	}
-	nScan, nObs := 0, 0
+	nScan := 0
+	obsImpl := map[string]bool{}
 	for _, s := range x.sites {
 		fn := s.fn
 		pos := w.Pos(s.instr.Pos())
@@ -1552,36 +2066,57 @@ func (x *c20X) r3() {
 		}
 		after := an.ReachBlocks(s.instr.Block().Succs, cut, nil)
 		var again []string
+		flagged := true // every offending path is steered by a bool variable the rule does not track
 		for _, o := range byFn[fn] {
+			hit := false
 			if o == s {
 				if after[s.instr.Block()] {
 					again = append(again, "itself (the loop comes back without return)")
+					hit = true
 				}
-				continue
-			}
-			if after[o.instr.Block()] || (o.instr.Block() == s.instr.Block() && an.InstrIndex(o.instr) > an.InstrIndex(s.instr)) {
+			} else if o.instr == s.instr {
+				continue // two reports inside one helper call: judged inside the helper
+			} else if after[o.instr.Block()] || (o.instr.Block() == s.instr.Block() && an.InstrIndex(o.instr) > an.InstrIndex(s.instr)) {
 				again = append(again, o.name+" at "+w.Pos(o.instr.Pos()))
+				hit = true
+			}
+			if hit && !c20PathSteeredByVariable(s.instr.Block(), o.instr.Block(), after, cut) {
+				flagged = false
 			}
 		}
-		c.Decide(len(again) == 0, "C20.R3", s.name+" :: no second report", pos, "every feasible path after the report leaves the function without another report",
-			"after this report a feasible path reaches another report for the same registration: "+strings.Join(again, ", ")+". "+strings.Join(x.notes[fn], " | "))
+		switch {
+		case len(again) == 0:
+			c.OK("C20.R3", s.name+" :: no second report", pos, "every feasible path after the report leaves the function without another report")
+		case flagged:
+			c.Unknown("C20.R3", s.name+" :: no second report", pos, "after this report the CFG reaches another report ("+strings.Join(again, ", ")+"), but every such path is steered by a bool variable (a 'reported' flag?) that this rule does not track")
+		default:
+			c.Bad("C20.R3", s.name+" :: no second report", pos,
+				"after this report a feasible path reaches another report for the same registration: "+strings.Join(again, ", ")+". "+strings.Join(x.notes[fn], " | "))
+		}
 
 		call, isCall := s.instr.(*ssa.Call)
 		var okE []an.Edge
-		if isCall && s.via == nil {
+		if isCall && s.via == nil && !s.proxy {
 			okE, _ = an.OkEdges(call)
 		}
 		// (B) scan over a watch list: the reported key is removed on success
-		if nx != nil {
+		if nx != nil && !s.proxy {
 			nScan++
 			cons := s.name + " :: removed from the watch list on success"
 			switch {
 			case listKey == "":
 				c.Unknown("C20.R3", cons, pos, "the scanned collection is not a field of the watcher")
-			case len(okE) == 0:
-				c.Bad("C20.R3", cons, pos, "the result of the report is not tested, so a reported registration is never told apart from a failed one")
+			case !isCall:
+				c.Unknown("C20.R3", cons, pos, "the report is issued by a go / defer statement")
 			default:
-				x.r3Removal(s, call, okE, nx, listKey, cons)
+				scanE := okE
+				if len(scanE) == 0 {
+					// the result is not tested: the key must be removed whatever the callback answers
+					for i := range s.instr.Block().Succs {
+						scanE = append(scanE, an.Edge{From: s.instr.Block(), Idx: i})
+					}
+				}
+				x.r3Removal(s, call, scanE, nx, listKey, cons)
 			}
 		}
 		// (C) an immediate report at registration time must not be followed by insertion into a watch list
@@ -1601,24 +2136,33 @@ func (x *c20X) r3() {
 		}
 		// (D) observers tell the subscriber that they reported
 		if fn.Name() == c20ObsCB && c20ImplOf(fn, x.obs) {
-			nObs++
-			okAll := true
-			for b := range an.ReachBlocks([]*ssa.BasicBlock{s.instr.Block()}, cut, nil) {
+			if n := an.NamedOf(fn.Signature.Recv().Type()); n != nil {
+				obsImpl[n.Obj().Name()] = true
+			}
+			afterD := an.ReachBlocks([]*ssa.BasicBlock{s.instr.Block()}, cut, nil)
+			verdict := 1
+			for b := range afterD {
 				if !c20HasReturn(b) {
 					continue
 				}
 				r := b.Instrs[len(b.Instrs)-1].(*ssa.Return)
-				k, isK := r.Results[0].(*ssa.Const)
-				if !isK || k.Value == nil || k.Value.Kind() != constant.Bool || !constant.BoolVal(k.Value) {
-					okAll = false
+				if v := c20ReturnsTrue(r.Results[0], afterD, 0); v < verdict {
+					verdict = v
 				}
 			}
-			c.Decide(okAll, "C20.R3", s.name+" :: observer returns true", pos, "every return after the report yields true, so the subscriber can deregister",
-				"a return after the report does not yield the constant true: the subscriber keeps the observer and it reports again on the next block")
+			cons := s.name + " :: observer returns true"
+			switch {
+			case verdict == 1:
+				c.OK("C20.R3", cons, pos, "every return after the report yields true, so the subscriber can deregister")
+			case verdict == 0 && (!s.proxy || s.must):
+				c.Bad("C20.R3", cons, pos, "a return after the report yields false: the subscriber keeps the observer and it reports again on the next block")
+			default:
+				c.Unknown("C20.R3", cons, pos, "a return after the report yields a value this rule cannot evaluate (not a constant nor a phi of constants), or the helper does not report on every path")
+			}
 		}
 	}
 	c.AtLeast("C20.R3", "watch-list scans with a report", nScan, 1)
-	c.AtLeast("C20.R3", "observer report sites", nObs, 2)
+	c.AtLeast("C20.R3", "TXObserver implementations with a report", len(obsImpl), 2)
 	fns := make([]*ssa.Function, 0, len(x.notes))
 	for fn := range x.notes {
 		fns = append(fns, fn)
@@ -1630,6 +2174,81 @@ func (x *c20X) r3() {
 	x.r3Subscribers()
 }
 
+// c20ReturnsTrue: 1 = the returned flag is true on every path that comes from the
+// report, 0 = some such path returns the constant false, -1 = cannot tell.
+func c20ReturnsTrue(v ssa.Value, afterSite map[*ssa.BasicBlock]bool, d int) int {
+	switch t := v.(type) {
+	case *ssa.Const:
+		if t.Value != nil && t.Value.Kind() == constant.Bool {
+			if constant.BoolVal(t.Value) {
+				return 1
+			}
+			return 0
+		}
+	case *ssa.Phi:
+		if d > 3 {
+			return -1
+		}
+		res := 1
+		for i, e := range t.Edges {
+			if i >= len(t.Block().Preds) || !afterSite[t.Block().Preds[i]] {
+				continue // this incoming value does not come from the report
+			}
+			if r := c20ReturnsTrue(e, afterSite, d+1); r < res {
+				res = r
+			}
+		}
+		return res
+	}
+	return -1
+}
+
+// c20PathSteeredByVariable: some block on the paths from `from` to `to` (inside
+// `within`) branches on a bool phi / local variable / parameter.
+func c20PathSteeredByVariable(from, to *ssa.BasicBlock, within map[*ssa.BasicBlock]bool, cut map[an.Edge]bool) bool {
+	check := func(b *ssa.BasicBlock) bool {
+		if len(b.Instrs) == 0 {
+			return false
+		}
+		iff, ok := b.Instrs[len(b.Instrs)-1].(*ssa.If)
+		if !ok {
+			return false
+		}
+		cond := iff.Cond
+		for {
+			u, ok := cond.(*ssa.UnOp)
+			if !ok || u.Op != token.NOT {
+				break
+			}
+			cond = u.X
+		}
+		switch t := cond.(type) {
+		case *ssa.Phi, *ssa.Parameter:
+			return true
+		case *ssa.UnOp:
+			if t.Op == token.MUL {
+				switch t.X.(type) {
+				case *ssa.Alloc, *ssa.FreeVar:
+					return true
+				}
+			}
+		}
+		return false
+	}
+	if check(from) {
+		return true
+	}
+	for b := range within {
+		if b == to {
+			continue
+		}
+		if check(b) && an.ReachBlocks([]*ssa.BasicBlock{b}, cut, nil)[to] {
+			return true
+		}
+	}
+	return false
+}
+
 // r3Removal: every path from a success edge of the report passes the instruction
 // that hands the reported key to the removal call, and the removal call lies on
 // every path to the function's returns.
@@ -1637,30 +2256,34 @@ func (x *c20X) r3Removal(s *c20Site, call *ssa.Call, okE []an.Edge, nx *ssa.Next
 	c, w := x.c, x.w
 	fn := s.fn
 	pos := w.Pos(s.instr.Pos())
-	key := c20Strip(s.swapID)
 	header := nx.Block()
-	var carrier ssa.Instruction
-	var removal ssa.CallInstruction
-	for _, cand := range an.Calls(fn) {
-		cc := cand.Common()
-		switch {
-		case w.Info(cand).Name == "builtin:delete" && len(cc.Args) == 2 && c20LoadedField(cc.Args[0]) == listKey && c20Strip(cc.Args[1]) == key:
-			carrier, removal = cand, cand
-		case cc.StaticCallee() != nil && w.InModule(cc.StaticCallee()) && x.deletesFrom(cc.StaticCallee(), listKey):
-			for _, a := range cc.Args {
-				if k := c20Carrier(a, key); k != nil {
-					carrier, removal = k, cand
-				} else if c20Strip(a) == key {
-					carrier, removal = cand, cand
-				}
+	var carrier, removal ssa.Instruction
+	var opaque []string
+	for _, k := range x.keyFlow(c20Settle(s.swapID), s.instr) {
+		switch k.kind {
+		case "delete":
+			if k.what == listKey && removal == nil {
+				carrier, removal = k.instr, k.instr
 			}
-		}
-		if removal != nil {
-			break
+		case "call":
+			g := k.instr.(ssa.CallInstruction).Common().StaticCallee()
+			if x.deletesFromDeep(g, listKey, 2) {
+				if removal == nil {
+					carrier, removal = k.first, k.instr
+				}
+			} else {
+				opaque = append(opaque, "passed to "+w.FuncName(g))
+			}
+		default:
+			opaque = append(opaque, k.what)
 		}
 	}
 	if removal == nil {
-		c.Bad("C20.R3", cons, pos, "the reported key never reaches a call that deletes from "+listKey+": the registration stays in the watch list and is reported again on every new block")
+		if len(opaque) > 0 {
+			c.Unknown("C20.R3", cons, pos, "the reported key does not reach a call that deletes from "+listKey+" in this function, but it is handed on ("+strings.Join(opaque, "; ")+"): cannot tell whether the registration is removed")
+		} else {
+			c.Bad("C20.R3", cons, pos, "the reported key never reaches a call that deletes from "+listKey+" and is not handed to anybody else: the registration stays in the watch list and is reported again on every new block")
+		}
 		return
 	}
 	// (i) success edge -> carrier within the iteration
@@ -1679,14 +2302,24 @@ func (x *c20X) r3Removal(s *c20Site, call *ssa.Call, okE []an.Edge, nx *ssa.Next
 	// (ii) removal call on every path to a return (when it is not the carrier itself)
 	ok2 := true
 	if removal != carrier {
-		reach := an.ReachBlocks([]*ssa.BasicBlock{fn.Blocks[0]}, nil, map[*ssa.BasicBlock]bool{removal.Block(): true})
+		// from the success edge on (a return before any report needs no removal)
+		var starts []*ssa.BasicBlock
+		for _, e := range okE {
+			starts = append(starts, e.To())
+		}
+		reach := an.ReachBlocks(starts, nil, map[*ssa.BasicBlock]bool{removal.Block(): true})
 		for b := range reach {
 			if b != removal.Block() && c20HasReturn(b) {
 				ok2 = false
 			}
 		}
 	}
-	c.Decide(ok1 && ok2, "C20.R3", cons, pos, "on the success edge the reported key is handed to "+w.Info(removal).Name+", which deletes it from "+listKey+" before the scan returns",
+	_ = fn
+	name := "delete"
+	if ci, ok := removal.(ssa.CallInstruction); ok {
+		name = w.Info(ci).Name
+	}
+	c.Decide(ok1 && ok2, "C20.R3", cons, pos, "on the success edge the reported key is handed to "+name+", which deletes it from "+listKey+" before the scan returns",
 		fmt.Sprintf("a path from the success edge of the report avoids the removal (key collected on every success path: %v; removal call on every path to return: %v)", ok1, ok2))
 }
 
@@ -1703,42 +2336,49 @@ func (x *c20X) r3Subscribers() {
 			n++
 			cons := w.FuncName(fn) + " :: observer deregistered after (true, nil)"
 			pos := w.Pos(call.Pos())
-			obsV := call.Call.Value
+			obsV := c20Settle(call.Call.Value)
 			listKey := ""
 			if ld, ok := obsV.(*ssa.UnOp); ok && ld.Op == token.MUL {
 				if ia, ok := ld.X.(*ssa.IndexAddr); ok {
-					listKey = c20LoadedField(ia.X)
+					listKey = c20SliceSource(ia.X, 0)
 				}
 			}
 			if listKey == "" {
-				c.Unknown("C20.R3", cons, pos, "the observer does not come from indexing a field of the subscriber")
+				c.Unknown("C20.R3", cons, pos, "the observer does not come from indexing (a copy / re-slice / snapshot of) a field of the subscriber")
 				continue
 			}
-			// removal calls: static callees that rewrite the list field and receive this observer
+			// removal calls: static callees that (transitively) rewrite the list field and receive this observer
 			removal := map[*ssa.BasicBlock]bool{}
+			rewriters := 0
+			if x.writesField(fn, listKey, 0) {
+				rewriters++ // the loop function filters the list itself
+			}
+			for _, af := range fn.AnonFuncs {
+				if x.writesField(af, listKey, 2) {
+					rewriters++ // removal inside a closure / deferred function
+				}
+			}
 			for _, cand := range an.Calls(fn) {
 				g := cand.Common().StaticCallee()
-				if g == nil || !w.InModule(g) {
+				if g == nil || !w.InModule(g) || !x.writesField(g, listKey, 2) {
 					continue
 				}
-				writes := false
-				for _, st := range x.prodWriters(listKey) {
-					if st.Parent() == g {
-						writes = true
-					}
+				if _, isCall := cand.(*ssa.Call); !isCall {
+					continue
 				}
-				passes := false
+				rewriters++
 				for _, a := range cand.Common().Args {
-					if a == obsV {
-						passes = true
+					if c20Settle(a) == obsV {
+						removal[cand.Block()] = true
 					}
-				}
-				if writes && passes {
-					removal[cand.Block()] = true
 				}
 			}
 			if len(removal) == 0 {
-				c.Bad("C20.R3", cons, pos, "no call in this loop passes the observer to a function that rewrites "+listKey+": an observer that reported stays registered and reports again on the next block")
+				if rewriters > 0 {
+					c.Unknown("C20.R3", cons, pos, "this function rewrites "+listKey+" (itself, in a closure, or through a callee) but the observer is not passed to a rewriting callee as such; cannot tell whether the reporting observer is removed")
+				} else {
+					c.Bad("C20.R3", cons, pos, "nothing called from this loop rewrites "+listKey+": an observer that reported stays registered and reports again on the next block")
+				}
 				continue
 			}
 			var flagV, errV ssa.Value
@@ -1901,62 +2541,120 @@ func c20ParsePhis(s string) map[string]bool {
 func (x *c20X) r4(conf []*c20Site) {
 	c, w := x.c, x.w
 	open := c20Lin(">", 0, "REG_START", 1, "REG_WINDOW", 1, "CUR", -1)
-	fns := map[*ssa.Function]bool{}
-	var order []*ssa.Function
+	backends := map[string]bool{}
+	done := map[*ssa.Function]bool{}
 	for _, s := range conf {
 		rel := w.FnRel(s.fn)
-		if s.errKind != "nonnil" && (rel == "txwatcher" || rel == "electrum") && !fns[s.fn] {
-			fns[s.fn] = true
-			order = append(order, s.fn)
+		if s.proxy || s.errKind == "nonnil" || (rel != "txwatcher" && rel != "electrum") {
+			continue
 		}
-	}
-	for _, fn := range order {
-		failing := map[*ssa.BasicBlock]bool{}
-		for _, s := range conf {
-			if s.fn == fn && s.errKind == "nonnil" && (s.via == nil || s.viaOK) {
-				failing[s.instr.Block()] = true
+		backends[rel] = true
+		// the window test sits in the function that reports, or in one that calls the helper that reports
+		chain := []*ssa.Function{s.fn}
+		for _, p := range conf {
+			if p.proxy && p.real() == s {
+				chain = append(chain, p.fn)
 			}
 		}
-		cut := x.infeasible(fn)
-		cons := w.FuncName(fn) + " :: window closed (current >= start+window) ⇒ failure report"
 		found := false
-		for _, b := range fn.Blocks {
-			iff, ok := b.Instrs[len(b.Instrs)-1].(*ssa.If)
-			if !ok {
+		var opaque []string
+		for _, fn := range chain {
+			for _, f := range w.Facts(fn) {
+				if _, ok := x.expand(f); !ok {
+					if why := x.opaqueFact(f); why != "" {
+						opaque = append(opaque, why)
+					}
+				}
+			}
+			if x.r4Func(fn, conf, open, done) {
+				found = true
+			}
+		}
+		if found {
+			continue
+		}
+		cons := w.FuncName(s.fn) + " :: window closed (current >= start+window) ⇒ failure report"
+		msg := "no branch of this function (or of the callers of the helper that reports) has an edge that is only taken while start+window-current > 0 holds for the registered start/window, so a closed window is never told apart. Branch facts: " + c20DescribeNorm(x, s.fn)
+		if len(opaque) > 0 {
+			c.Unknown("C20.R4", cons, w.Pos(s.fn.Pos()), msg+" — conditions this rule cannot look into: "+strings.Join(opaque, ", "))
+		} else {
+			c.Bad("C20.R4", cons, w.Pos(s.fn.Pos()), msg)
+		}
+	}
+	c.AtLeast("C20.R4", "back-ends (RPC, Electrum) with a confirmation report that may carry a nil error", len(backends), 2)
+}
+
+// r4Func judges the closed-window edges of fn; false when fn has none.
+func (x *c20X) r4Func(fn *ssa.Function, conf []*c20Site, open func(an.Fact) bool, done map[*ssa.Function]bool) bool {
+	c, w := x.c, x.w
+	failing := map[*ssa.BasicBlock]bool{}
+	for _, s := range conf {
+		if s.fn != fn || s.errKind != "nonnil" {
+			continue
+		}
+		if (s.proxy && s.must) || (!s.proxy && (s.via == nil || s.viaOK)) {
+			failing[s.instr.Block()] = true
+		}
+	}
+	isHelper := false // called synchronously by in-module code that could report in its place
+	if fn.Parent() == nil && !c20ImplOf(fn, x.txw) && !c20ImplOf(fn, x.obs) {
+		for _, call := range x.callers[fn] {
+			if _, ok := call.(*ssa.Call); ok {
+				isHelper = true
+			}
+		}
+	}
+	cut := x.infeasible(fn)
+	cons := w.FuncName(fn) + " :: window closed (current >= start+window) ⇒ failure report"
+	found := false
+	for _, b := range fn.Blocks {
+		if len(b.Instrs) == 0 {
+			continue
+		}
+		iff, ok := b.Instrs[len(b.Instrs)-1].(*ssa.If)
+		if !ok {
+			continue
+		}
+		ft, ff := w.FactsOfIf(iff)
+		for _, pr := range [][2]an.Fact{{ft, ff}, {ff, ft}} {
+			closedEdge, sibling := pr[0], pr[1]
+			// the sibling edge is only taken with the window open, so a closed window takes closedEdge
+			if !x.implies(sibling, open) {
 				continue
 			}
-			ft, ff := w.FactsOfIf(iff)
-			for _, pr := range [][2]an.Fact{{ft, ff}, {ff, ft}} {
-				closedEdge, sibling := pr[0], pr[1]
-				// the sibling edge is only taken with the window open, so a closed window takes closedEdge
-				if !x.implies(sibling, open) {
+			found = true
+			if done[fn] {
+				continue
+			}
+			reach := an.ReachBlocks([]*ssa.BasicBlock{closedEdge.Edge.To()}, cut, failing)
+			var bad []string
+			for rb := range reach {
+				if failing[rb] {
 					continue
 				}
-				found = true
-				reach := an.ReachBlocks([]*ssa.BasicBlock{closedEdge.Edge.To()}, cut, failing)
-				var bad []string
-				for rb := range reach {
-					if failing[rb] {
-						continue
-					}
-					if c20HasReturn(rb) {
-						bad = append(bad, fmt.Sprintf("return in b%d", rb.Index))
-					}
-					if rb == b {
-						bad = append(bad, "back to the window test")
-					}
+				if c20HasReturn(rb) {
+					bad = append(bad, fmt.Sprintf("return in b%d", rb.Index))
 				}
-				sort.Strings(bad)
-				c.Decide(len(bad) == 0, "C20.R4", cons, w.Pos(iff.Cond.Pos()), "every feasible path from the closed-window edge issues the confirmation callback with a non-nil error before returning",
-					"the taker gets silence instead of an error: from the closed-window edge a path leaves without a failure report ("+strings.Join(bad, ", ")+")")
+				if rb == b {
+					bad = append(bad, "back to the window test")
+				}
+			}
+			sort.Strings(bad)
+			pos := w.Pos(iff.Cond.Pos())
+			switch {
+			case len(bad) == 0:
+				c.OK("C20.R4", cons, pos, "every feasible path from the closed-window edge issues the confirmation callback with a non-nil error before returning")
+			case isHelper:
+				c.Unknown("C20.R4", cons, pos, "from the closed-window edge this helper returns without a failure report ("+strings.Join(bad, ", ")+"); whether its callers report the failure is not followed")
+			default:
+				c.Bad("C20.R4", cons, pos, "the taker gets silence instead of an error: from the closed-window edge a path leaves without a failure report ("+strings.Join(bad, ", ")+")")
 			}
 		}
-		if !found {
-			c.Bad("C20.R4", cons, w.Pos(fn.Pos()),
-				"no branch of this function has an edge that is only taken while start+window-current > 0 holds for the registered start/window, so a closed window is never told apart. Branch facts: "+c20DescribeNorm(x, fn))
-		}
 	}
-	c.AtLeast("C20.R4", "RPC/Electrum functions with a confirmation report that may carry a nil error", len(order), 2)
+	if found {
+		done[fn] = true
+	}
+	return found
 }
 
 func c20DescribeNorm(x *c20X, fn *ssa.Function) string {
